@@ -296,6 +296,7 @@ func WorkerMainMulti(mk func(tag string) Model) {
 
 // Stats of a search.
 type Stats struct {
+	Unconfirmed []string // keys of violations whose witness did not reproduce on a fresh worker
 	States       int
 	Transitions  int
 	Executions   int
@@ -419,6 +420,51 @@ func SearchP(pool *Pool, tag string, addViol func(common.Violation), addSample f
 	seen := map[string]bool{}
 	frontier := []node{{}}
 	// differential oracle: results per (state key, event) and the tagged transitions
+	// a violation is reported only if its witness reproduces on a fresh worker process (decided once per key): a
+	// violation that does not is the trace of nondeterminism the harness does not own, never an alarm
+	verdictOf := map[string]bool{}
+	confirmed := func(v common.Violation) bool {
+		if ok, done := verdictOf[v.Key]; done {
+			return ok
+		}
+		w, isMap := v.Witness.(map[string]any)
+		if !isMap || w["path"] == nil {
+			verdictOf[v.Key] = true
+			return true
+		}
+		var path []string
+		var choices []int
+		pb, _ := json.Marshal(w["path"])
+		cb, _ := json.Marshal(w["choices"])
+		json.Unmarshal(pb, &path)
+		json.Unmarshal(cb, &choices)
+		ok := true
+		if fw, err := startWorker(pool.args); err == nil {
+			jb := Job{Path: path, Choices: choices, Replay: true, Tag: tag}
+			b, _ := json.Marshal(jb)
+			fw.stdin.Write(b)
+			fw.stdin.WriteByte('\n')
+			fw.stdin.Flush()
+			if fw.stdout.Scan() {
+				var r JobResult
+				if json.Unmarshal(fw.stdout.Bytes(), &r) == nil && r.Err == "" {
+					ok = false
+					for _, rv := range r.Violations {
+						if rv.Key == v.Key {
+							ok = true
+						}
+					}
+				}
+			}
+			fw.closer()
+		}
+		verdictOf[v.Key] = ok
+		if !ok {
+			st.Unconfirmed = append(st.Unconfirmed, v.Key)
+			fmt.Fprintf(os.Stderr, "space: violation %s did not reproduce on a fresh worker (path %v): not reported; recorded as unconfirmed\n", v.Key, path)
+		}
+		return ok
+	}
 	results := map[string]map[string]map[string]bool{}
 	succOf := map[string]map[string]map[string]bool{} // state key -> event -> successor keys
 	proj := map[string]string{}
@@ -529,6 +575,9 @@ func SearchP(pool *Pool, tag string, addViol func(common.Violation), addSample f
 				st.Counters[k] += v
 			}
 			for _, v := range r.Violations {
+				if !confirmed(v) {
+					continue
+				}
 				addViol(v)
 			}
 			from, known := pathKey[nodeID(r.Job.Path, r.Job.Choices)]
@@ -695,6 +744,7 @@ func FillEvidence(rep *common.Report, st *Stats) {
 	rep.Set("event_results", st.Results)
 	rep.Set("counters", st.Counters)
 	rep.Set("incomplete_events", st.Blocked)
+	rep.Set("unconfirmed_violations", st.Unconfirmed)
 }
 
 type lineFilter struct {
